@@ -378,7 +378,7 @@ func resolvers() *tx.Stub {
 				pause(st.c.Timing, r)
 				p := payloadText(st.c.Seed, i, st.c.Sizes[i])
 				select {
-				case ch <- &tx.Event{Seq: i, Payload: &p}:
+				case ch <- &tx.Event{Seq: i, Payload: &p, Meta: map[string]any{"i": i, "s": "a b"}, Extra: []any{i, "x"}}:
 					st.consumed.Add(1)
 				case <-ctx.Done():
 					st.ctxDone.Store(true)
@@ -499,6 +499,9 @@ func queryFor(c *Case) (q string, gated []string) {
 	if c.Kind == "sse" {
 		switch c.Op {
 		case "sub", "suberr":
+			if c.Idx%3 == 1 {
+				return fmt.Sprintf(`subscription { ctl(id:"c%d") { seq payload meta extra } }`, c.Idx), nil
+			}
 			return fmt.Sprintf(`subscription { ctl(id:"c%d") { seq payload } }`, c.Idx), nil
 		case "query":
 			return `{ q1 q2 items(n:3) { id name } }`, nil
